@@ -317,6 +317,8 @@ impl<Sink: TokenSink> XmlTokenizer<Sink> {
     pub fn run(&self, input: &BufferQueue) -> TokenizerResult<Sink::Handle> {
         if self.opts.profile {
             loop {
+                #[cfg(feature = "verif")]
+                markup5ever::verif::tick(3);
                 let state = self.state.get();
                 let old_sink = self.time_in_sink.get();
                 let (run, mut dt) = time!(self.step(input));
@@ -340,6 +342,8 @@ impl<Sink: TokenSink> XmlTokenizer<Sink> {
             }
         } else {
             loop {
+                #[cfg(feature = "verif")]
+                markup5ever::verif::tick(3);
                 match self.step(input) {
                     ProcessResult::Continue => continue,
                     ProcessResult::Done => return TokenizerResult::Done,
@@ -1115,6 +1119,21 @@ impl<Sink: TokenSink> XmlTokenizer<Sink> {
         }
     }
 
+    /// Verification hook: the hidden state that must survive a suspension,
+    /// as (state, reconsume, ignore_lf, temp_buf length, character reference
+    /// in progress, discard_bom still armed).
+    #[cfg(feature = "verif")]
+    pub fn verif_state(&self) -> (XmlState, bool, bool, usize, bool, bool) {
+        (
+            self.state.get(),
+            self.reconsume.get(),
+            self.ignore_lf.get(),
+            self.temp_buf.borrow().len(),
+            self.char_ref_tokenizer.borrow().is_some(),
+            self.discard_bom.get(),
+        )
+    }
+
     /// Indicate that we have reached the end of the input.
     pub fn end(&self) {
         // Handle EOF in the char ref sub-tokenizer, if there is one.
@@ -1134,6 +1153,8 @@ impl<Sink: TokenSink> XmlTokenizer<Sink> {
         let _ = self.run(&input);
 
         loop {
+            #[cfg(feature = "verif")]
+            markup5ever::verif::tick(4);
             if !matches!(self.eof_step(), ProcessResult::Continue) {
                 break;
             }
